@@ -114,8 +114,14 @@ def info (c : Case) : Except String Info := do
     ++ (match agrees with | some true => ["inline:agree"] | some false => ["inline:disagree"] | none => [])
   pure { nq, shadowed, tags, inlineAgrees := agrees }
 
+/-- widths of the catalog's tables (from the case's `cat` description; a table may be empty) -/
+def tableWidths (c : Case) : List Nat :=
+  match c.raw.getObjValAs? (Array Json) "cat" with
+  | .ok a => a.toList.map fun t => match t.getObjValAs? (Array Json) "cols" with | .ok cs => cs.size | .error _ => 0
+  | .error _ => c.tables.map fun t => (t.headD []).length
+
 def explains (c : Case) (nq : NQ) (out : Table) (dev : Dev) (pick : String → Nat) : Bool :=
-  match Spec.acceptable fo fns c.tables (enginePlan dev pick nq) out with
+  match Spec.acceptable fo fns c.tables (enginePlan dev (tableWidths c) pick nq) out with
   | .ok true => true
   | _ => false
 
@@ -151,11 +157,32 @@ def attrC28 : AttrFn := fun c o _ =>
     else none
   | _ => none
 
+/-- the CTE-free rendering of the statement passes the oracle on the real engine -/
+def inlinePasses (c : Case) : Bool :=
+  match c.impl.getObjVal? "neutral_inline" with
+  | .ok n =>
+    match (do
+      let o ← outcomeOfJson (← getObj n "impl")
+      pure (judge c (specRun c) o)) with
+    | .ok (label, none) => label == "right"
+    | _ => false
+  | .error _ => false
+
 def handler : Driver.Handler := fun cj i => do
   let v ← handlerWith attrC28 cj i
   let c := { (← caseOfJson cj) with impl := i }
   let inf ← info c
   let kInline := inf.inlineAgrees != some false
-  pure { v with tags := v.tags ++ inf.tags, k := v.k && kInline }
+  let v := { v with tags := v.tags ++ inf.tags, k := v.k && kInline }
+  -- C28-specific strictness: the engine ANSWERS the CTE-free rendering correctly but FAILS on the WITH statement itself —
+  -- then some reference did not yield its definition's rows.  With a re-used name this is the known finding C28-F1 (a
+  -- reference bound to the other definition looks for column names that definition does not have).
+  match (← outcomeOfJson i) with
+  | .err kind =>
+    if v.oracle.isNone && !c.engineDefined && inlinePasses c then
+      pure { v with oracle := some s!"engine error ({kind}) on the WITH statement although its CTE-free rendering is answered correctly",
+                    k := false, tags := v.tags ++ ["with_only_error"], attr := if inf.shadowed then some "C28-F1" else none }
+    else pure v
+  | _ => pure v
 
 end Driver.SQLC28
